@@ -11,6 +11,7 @@ from __future__ import annotations
 
 import itertools
 import json
+import os
 import random
 from concurrent.futures import ThreadPoolExecutor
 from pathlib import Path
@@ -18,6 +19,7 @@ from pathlib import Path
 from vlib.core import VERIF, load_known
 
 PROP = "C09"
+RUN_ID = f"p{os.getpid()}"      # concurrent runs (e.g. against scratch worktrees) do not share scratch files
 CORPUS = VERIF / "corpus" / PROP
 
 K1 = "K-C09-1"
@@ -202,6 +204,8 @@ def judge(c, r, bits=None):
     modes, o, dims = c["modes"], c["ord"], c["dims"]
     kind = c.get("kind", "valid")
     res = r["res"]
+    if "crash" in res:
+        return [("violation", "crash", f"the interpreter died (exit status {res['crash']}) while constructing / reading back / pickling")]
     ents = case_entries(c)
     b = bits or 0
     has = lambda w: bool(b & w)  # noqa: E731
@@ -218,7 +222,7 @@ def judge(c, r, bits=None):
             out.append(("violation", "canonical", f"stored structure not canonical: {w}"))
             return out
         if any(isinstance(v, str) for v in res["vals"]):
-            return [("violation", "values", "stored value is not the exact sum of the supplied values")]
+            return [("violation", "values", f"stored value is not finite: {res['vals'][:6]}")]
         stored = {k: v for k, v in py_entries(res) if v != 0}
         if stored != exp:
             out.append(("violation", "content", f"stored entries {sorted(stored.items())} != supplied {sorted(exp.items())}"))
@@ -384,6 +388,34 @@ def make_variant(rng: random.Random, modes, o, dims, subset, ep, all_cells):
     return c
 
 
+FVALS = [0.5, 0.25, 0.1, -2.75, 1e-300, 1e300, 3.141592653589793, 5e-324, -0.0, 1.0000000000000002, 123456789.125]
+
+
+def make_float_case(rng: random.Random, modes, o, dims, ep):
+    """Non-integer values (exact binary64 must come back bit for bit); duplicates only of dyadic values whose sums
+    are exact in any order.  Compared with the property oracle only (the Coq model is over Z)."""
+    cells = cells_of(dims)
+    chosen = [k for k in cells if rng.random() < 0.5]
+    stream = []
+    for k in chosen:
+        if ep in ("aos", "soa") and rng.random() < 0.3:
+            stream += [(k, 0.5), (k, 0.25), (k, rng.choice([1.0, -0.75, 2.0]))]
+        else:
+            stream.append((k, rng.choice(FVALS)))
+    rng.shuffle(stream)
+    c = {"modes": list(modes), "ord": list(o), "dims": list(dims), "ep": ep, "kind": "valid", "read": True,
+         "fmtstr": rng.random() < 0.5, "floats": True}
+    if ep in ("aos", "dok"):
+        c["coords"] = [list(k) for k, _ in stream]
+        c["vals"] = [v for _, v in stream]
+    elif ep == "soa":
+        c["cols"] = [[k[i] for k, _ in stream] for i in range(len(dims))]
+        c["vals"] = [v for _, v in stream]
+    else:
+        c["lol"] = lol_of(dims, sum_nonzero(stream))
+    return c
+
+
 def pick_subsets(rng, cells, cap):
     n = len(cells)
     if 2 ** n <= cap:
@@ -457,6 +489,28 @@ def gen_valid(chk):
                 c = make_variant(rng, modes, o, dims, s, eps[k % 4], cells)
                 k += 1
                 cases.append(add_extras(rng, c, fmts3, 0.03, 0.2))
+    # wide dimensions (two-digit coordinates, sparse content), orders 1..3
+    for _ in range(4000 if thorough else 400):
+        n = rng.choice([1, 2, 2, 3])
+        modes, o = rng.choice(all_formats(n))
+        dims = tuple(rng.choice([1, 5, 11, 12, 13]) for _ in range(n))
+        m = rng.choice([1, 2, 4, 8, 14])
+        s = list({tuple(rng.randrange(d) for d in dims) for _ in range(m)})
+        ep = eps[k % 4]
+        if ep == "lol" and len(cells_of(dims)) > 200:
+            ep = "aos"
+        k += 1
+        others = [tuple(rng.randrange(d) for d in dims) for _ in range(2)]
+        c = make_variant(rng, modes, o, dims, s, ep, s + others)
+        cases.append(add_extras(rng, c, all_formats(n), 0.0, 0.2))
+    # non-integer values, orders 1..3
+    for _ in range(2500 if thorough else 300):
+        n = rng.choice([1, 2, 2, 3])
+        modes, o = rng.choice(all_formats(n))
+        dims = tuple(rng.choice([1, 2, 3]) for _ in range(n))
+        c = make_float_case(rng, modes, o, dims, eps[k % 4])
+        k += 1
+        cases.append(add_extras(rng, c, all_formats(n), 0.0, 0.0))
     # order 4, dims <= 2
     fmts4 = all_formats(4)
     per = 30 if thorough else 1
@@ -589,6 +643,9 @@ def ires(res):
 
 
 def coq_representable(r):
+    if "crash" in r["res"]:
+        return False
+
     def ok_res(res):
         return "err" in res or all(isinstance(v, int) for v in res["vals"])
     if not ok_res(r["res"]):
@@ -644,6 +701,24 @@ def parse_failing(out):
 # ------------------------------------------------------------------------------------------------
 # running
 # ------------------------------------------------------------------------------------------------
+_HEX = None
+
+
+def dehex(x):
+    """values come back as int (integral) or float.hex() strings: turn the latter into exact floats"""
+    global _HEX
+    if _HEX is None:
+        import re
+        _HEX = re.compile(r"^-?0x[0-9a-f.]+p[+-]?\d+$")
+    if isinstance(x, list):
+        return [dehex(y) for y in x]
+    if isinstance(x, dict):
+        return {k: (v if k == "msg" else dehex(v)) for k, v in x.items()}
+    if isinstance(x, str) and _HEX.match(x):
+        return float.fromhex(x)
+    return x
+
+
 def run_impl(chk, cases, shards=8):
     if not cases:
         return []
@@ -651,13 +726,32 @@ def run_impl(chk, cases, shards=8):
     chunks = [cases[i:i + size] for i in range(0, len(cases), size)]
 
     def one(chunk):
-        rc, out, errtxt = chk.impl("c09_impl.py", [], input=json.dumps({"cases": chunk}), timeout=1500)
-        if rc != 0:
-            raise RuntimeError(f"c09_impl.py failed rc={rc}: {errtxt[-800:]}")
-        return json.loads(out)["results"]
+        """Results are streamed one per line; when the interpreter dies (e.g. SIGSEGV inside a cffi read) the
+        case after the last complete line is the culprit: record it and go on with the rest."""
+        results, rest, crashes = [], list(chunk), 0
+        while rest:
+            rc, out, errtxt = chk.impl("c09_impl.py", [], input=json.dumps({"cases": rest}), timeout=1500)
+            got = []
+            for line in out.splitlines():
+                try:
+                    got.append(json.loads(line))
+                except Exception:  # noqa: BLE001
+                    break
+            got = got[:len(rest)]
+            results += got
+            rest = rest[len(got):]
+            if not rest:
+                break
+            crashes += 1
+            results.append({"res": {"crash": rc, "msg": errtxt[-300:]}})
+            rest = rest[1:]
+            if crashes >= 25:
+                results += [{"res": {"crash": "not run: 25 earlier cases of this shard killed the interpreter"}} for _ in rest]
+                rest = []
+        return results
     with ThreadPoolExecutor(max_workers=shards) as ex:
         parts = list(ex.map(one, chunks))
-    return [r for p in parts for r in p]
+    return [dehex(r) for p in parts for r in p]
 
 
 def run_model(chk, pairs, tag, per_file=400, workers=6):
@@ -668,7 +762,7 @@ def run_model(chk, pairs, tag, per_file=400, workers=6):
 
     def one(j):
         sub = files[j]
-        ok, out = chk.coq_eval(f"c09_{tag}_{j}", coq_file([pairs[i] for i in sub]), timeout=1200)
+        ok, out = chk.coq_eval(f"c09_{RUN_ID}_{tag}_{j}", coq_file([pairs[i] for i in sub]), timeout=1200)
         f = parse_failing(out) if ok else None
         if f is None:
             return j, None, out[-1500:]
@@ -676,7 +770,7 @@ def run_model(chk, pairs, tag, per_file=400, workers=6):
     with ThreadPoolExecutor(max_workers=workers) as ex:
         for j, f, msg in ex.map(one, range(len(files))):
             if f is None:
-                chk.broken.append({"kind": "coq-eval", "file": f"build/cases/c09_{tag}_{j}.v", "output": msg})
+                chk.broken.append({"kind": "coq-eval", "file": f"build/cases/c09_{RUN_ID}_{tag}_{j}.v", "output": msg})
                 continue
             for k, m in f.items():
                 masks[files[j][k]] = m
@@ -779,7 +873,10 @@ def process(chk, cases, tag, allowed, stats):
     viol = []
     for i, (c, r) in enumerate(pairs):
         m = masks.get(i, 0)
-        js = judge(c, r, m)
+        try:
+            js = judge(c, r, m)
+        except Exception as e:  # noqa: BLE001  (an answer the oracle cannot even read)
+            js = [("broken", "oracle", f"{type(e).__name__}: {e} while judging the implementation's answer")]
         o = c["ord"]
         canon = (c["kind"], c["ep"], tuple(c["modes"]), tuple(o), tuple(c["dims"]),
                  json.dumps(case_entries(c), default=str), json.dumps(c.get("tofmt", []))[:200])
@@ -788,10 +885,12 @@ def process(chk, cases, tag, allowed, stats):
         chk.count(f"order{len(o)}")
         chk.count(f"ep_{c['ep']}")
         chk.count(f"kind_{c['kind']}")
+        if c.get("floats"):
+            chk.count("non_integer_values")
         if c["kind"] == "valid":
             stats["tofmt"] += len(c.get("tofmt", []))
             if noninv(o) and "items" in r:
-                stored = py_entries(r["res"]) if "err" not in r["res"] else []
+                stored = py_entries(r["res"]) if ("indices" in r["res"] and not py_wf(r["res"])) else []
                 if any(perm2(k, o) != k for k, _ in stored):
                     if not (m & 4):
                         stats["noninv_spec"] += 1
@@ -802,7 +901,7 @@ def process(chk, cases, tag, allowed, stats):
             if any(v == 0 for _, v in ents_):
                 chk.count("with_explicit_zero")
         else:
-            chk.count("malformed_rejected" if "err" in r["res"] else "malformed_accepted")
+            chk.count("malformed_rejected" if ("err" in r["res"] or "crash" in r["res"]) else "malformed_accepted")
             if "err" in r["res"]:
                 chk.count("reject_" + r["res"]["err"])
         if i % 997 == 0:
@@ -812,9 +911,9 @@ def process(chk, cases, tag, allowed, stats):
                 if ident in allowed:
                     stats["known"].setdefault(ident, []).append(text)
                 else:
-                    viol.append((c, r, m, f"{ident} (not listed in known_findings.json): {text}"))
+                    viol.append((c, r, m, ident, f"{ident} (not listed in known_findings.json): {text}"))
             elif sev == "violation":
-                viol.append((c, r, m, text))
+                viol.append((c, r, m, ident, text))
             else:
                 stats["broken"].append({"kind": "correspondence", "what": text, "mask": m,
                                         "mask_bits": [BITS[b] for b in BITS if m & b], "case": strip(c),
@@ -822,23 +921,33 @@ def process(chk, cases, tag, allowed, stats):
     return viol
 
 
+def case_size(c):
+    e = case_entries(c) or []
+    return (len(c["ord"]), len(e), sum(c["dims"]) if c["dims"] else 0, len(c.get("tofmt", [])))
+
+
 def report_violations(chk, viol):
-    seen = set()
-    for c, r, m, text in viol[:400]:
-        key = (text.split(":")[0][:40], tuple(c["modes"]), tuple(c["ord"]))
-        if key in seen or len(seen) >= 6:
-            continue
-        seen.add(key)
+    """One violation per kind of failure (at most 4), each on the smallest failing case, minimised."""
+    by_kind = {}
+    for c, r, m, ident, text in viol:
+        by_kind.setdefault(ident, []).append((c, r, m, text))
+    seen_inputs = set()
+    for ident in list(by_kind)[:4]:
+        c, r, m, text = min(by_kind[ident], key=lambda x: case_size(x[0]))
         small = c
         try:
             small = minimise(chk, c, text)
         except Exception as e:  # noqa: BLE001
             chk.note(f"minimiser failed: {e}")
+        key = json.dumps(strip(small), sort_keys=True)
+        if key in seen_inputs:
+            continue
+        seen_inputs.add(key)
         rs = run_impl(chk, [small], shards=1)[0]
-        js = [t for s, _, t in judge(small, rs) if s == "violation"]
+        js = [t for s_, _, t in judge(small, rs) if s_ == "violation"]
         chk.violation(js[0] if js else text, {"input": strip(small), "actual": rs, "expected": expected_text(small),
+                                              "failing_cases_of_this_kind": len(by_kind[ident]),
                                               "original_case": strip(c), "model_mask": [BITS[b] for b in BITS if m & b]})
-        CORPUS.mkdir(parents=True, exist_ok=True)
 
 
 def expected_text(c):
@@ -881,10 +990,17 @@ def run(chk):
         "Python-side oracle (expected_dok, py_entries, py_wf in tools/props/C09.py) and the term printer",
     ]
     chk.coq_props()
-    ok, log = chk.coq_make(["proofs/TensorBuildCheck.vo", "findings/K_C09_1.vo", "findings/K_C09_2.vo"])
+    ok, log = chk.coq_make(["proofs/TensorBuildCheck.vo"])
     if not ok:
-        chk.broken.append({"kind": "build", "what": "TensorBuildCheck / findings do not build", "log": log[-1500:]})
+        chk.broken.append({"kind": "build", "what": "proofs/TensorBuildCheck.v does not build", "log": log[-1500:]})
         return
+    for f in ("findings/K_C09_1.vo", "findings/K_C09_2.vo"):
+        okf, logf = chk.coq_make([f])
+        if not okf:
+            chk.note(f"{f[:-1]} (refutation witness of a known finding, about the hand model) no longer builds")
+    chk.extra["partial"] = ["C09_out_of_range_rejected_partial", "C09_roundtrip_impl_partial"]
+    chk.extra["refuted"] = ["findings/K_C09_1.v: C09_roundtrip_impl_refuted, items_roundtrip_refuted, to_format_refuted",
+                            "findings/K_C09_2.v: C09_out_of_range_rejected_refuted, out_of_range_rejected_refuted*"]
     allowed = allowed_known(chk)
     stats = {"known": {}, "broken": [], "tofmt": 0, "noninv_spec": 0, "noninv_impl": 0}
     viol = []
@@ -917,7 +1033,7 @@ def run(chk):
         chk.note(f"{len(stats['broken'])} correspondence disagreements in total")
     report_violations(chk, viol)
     if not chk.broken and not chk.violations:
-        for f in (VERIF / "build" / "cases").glob("c09_*"):
+        for f in list((VERIF / "build" / "cases").glob(f"c09_{RUN_ID}_*")) + list((VERIF / "build" / "cases").glob(f".c09_{RUN_ID}_*")):
             try:
                 f.unlink()
             except OSError:
